@@ -50,12 +50,12 @@ pub struct Spec {
     pub sf: [FutS; 2],
     pub rf: [FutS; 3],
     /// tags destroyed by the channel itself (close)
-    pub destroyed: [bool; 8],
+    pub destroyed: [bool; 12],
     /// wakes the model expects per waker id
     pub wakes: [u8; 4],
     pub stream_ended: bool,
     /// tags in the order receive operations obtain them
-    pub order: [u8; 8],
+    pub order: [u8; 12],
     pub order_len: usize,
 }
 
@@ -77,16 +77,16 @@ impl Spec {
             rc: 1,
             sf: [FUT0; 2],
             rf: [FUT0; 3],
-            destroyed: [false; 8],
+            destroyed: [false; 12],
             wakes: [0; 4],
             stream_ended: false,
-            order: [0; 8],
+            order: [0; 12],
             order_len: 0,
         }
     }
 
     fn note(&mut self, t: u8) {
-        if self.order_len < 8 {
+        if self.order_len < 12 {
             self.order[self.order_len] = t;
             self.order_len += 1;
         }
